@@ -291,7 +291,9 @@ func c20Clamp(p *core.Program, r *core.Report) {
 			continue
 		}
 		nOrd++
-		in := &ord.Interp{Info: info, O: o, Term: term}
+		// conditions that are not comparisons of the clamp's terms (a nil test, a debug flag)
+		// do not decide the clamp: both outcomes are explored
+		in := &ord.Interp{Info: info, O: o, Term: term, CondHook: func(ast.Expr) (ord.Tri, bool) { return ord.Unknown, true }}
 		paths := in.Run(prefix, nil)
 		if in.Unsupported != "" {
 			r.Undecide("R3", "(*cluster).partitionNodes", p.Pos(fd.Pos()), in.Unsupported)
